@@ -36,7 +36,7 @@ Theorem mrf_dx_1d dim b x loc d :
   mrf_dx 1 dim b x loc = Some d -> length (shift x loc) = dim -> periodic_too_small 1 b dim = false ->
   dim <> 1%nat /\ stencil_spec 1 b (shift x loc) = Some d.
 Proof.
-  unfold mrf_dx, mrf_diff. destruct (dim =? 1)%nat eqn:E1; [discriminate|]. cbn [mrf_nodes].
+  unfold mrf_dx, mrf_diff, mrf_diff_gen. fold fd_op. destruct (dim =? 1)%nat eqn:E1; [discriminate|]. cbn [mrf_nodes].
   rewrite fd_op_1d. destruct (fd_matrix 1 b dim) as [D|] eqn:HD; [|discriminate]. cbn [option_map].
   intros H Hx Hs. injection H as <-. split; [lia|]. apply (stencil_all 1 b dim _ D HD Hs Hx).
 Qed.
@@ -48,7 +48,7 @@ Theorem mrf_dx_2d N b x loc d X :
     d = concat (map (fun row => zmatvec D row) X) ++
         concat (map (fun drow => map (fun c => zdot drow (col 0 X c)) (seq 0 N)) D).
 Proof.
-  unfold mrf_dx, mrf_diff. destruct (N * N =? 1)%nat eqn:E1; [discriminate|]. cbn [mrf_nodes].
+  unfold mrf_dx, mrf_diff, mrf_diff_gen. fold fd_op. destruct (N * N =? 1)%nat eqn:E1; [discriminate|]. cbn [mrf_nodes].
   rewrite isqrt_sq, fd_op_2d. destruct (fd_matrix 1 b N) as [D|] eqn:HD; [|discriminate]. cbn [option_map].
   intros H HX Hx. injection H as <-. exists D. split; [reflexivity|]. rewrite Hx.
   apply stack2d_matvec; [eapply fd_matrix_wf; exact HD | exact HX].
